@@ -624,6 +624,44 @@ def run_grammar(ctx: Ctx) -> RuleResult:
             res.finding('lark/grammars/python.lark', None, 'the comment terminal %s is %%ignore-d but is not part of the newline terminal %s: a comment-only '
                         'line then yields a newline token of its own whose indentation the Indenter measures -- INDENT/DEDENT/DedentError for a '
                         'line CPython ignores' % (ig, nl), construct='nl-terminal-comment:' + ig, file=rel, line=terms.get(nl, (1, ''))[0])
+    # blank lines and comment lines between two statements belong to ONE newline token (the Indenter looks at the text after the token's
+    # last newline): the newline terminal is a repetition `( ... )+` of its alternatives
+    body_nl = terms[nl][1].split('//')[0].strip()
+    ok = bool(_re.search(r'\)\s*\+\s*$', body_nl)) or bool(_re.search(r'\)\s*~\s*1\s*\.\.', body_nl))
+    res.ob(site, 'the newline terminal %s is a one-or-more repetition of its alternatives' % nl, ok)
+    if not ok:
+        res.finding('lark/grammars/python.lark', None, 'the newline terminal %s is defined as `%s`, not as a repetition `( ... )+`: a blank or comment line after a '
+                    'statement becomes a newline token of its own, and the indentation of that line (none) dedents the block -- CPython ignores such lines'
+                    % (nl, body_nl[:60]), construct='nl-terminal-repetition', file=rel, line=terms.get(nl, (1, ''))[0])
+    # an explicit line continuation (backslash, optional blanks, newline) is ignored text, so the physical newline inside it is no NEWLINE token
+    conts = []
+    for m in _re.finditer(r'^%ignore\s+/((?:[^/\\\n]|\\.)+)/([a-z]*)', text, _re.M):
+        pat_ = m.group(1)
+        try:
+            import re._parser as _sp
+            seq = list(_sp.parse(pat_))
+        except Exception as e:
+            raise AnalysisError('cannot parse the ignored regexp /%s/: %s' % (pat_, e))
+        if seq and str(seq[0][0]) == 'LITERAL' and seq[0][1] == ord('\\'):
+            conts.append((pat_, seq, text[:m.start()].count('\n') + 1))
+    okc = False
+    whyc = 'no ignored regexp starts with a backslash'
+    for pat_, seq, ln_ in conts:
+        rest = seq[1:]
+        # optional blanks: a repeat with minimum 0 (or nothing), then an optional \r and the newline
+        if rest and str(rest[0][0]) in ('MAX_REPEAT', 'MIN_REPEAT'):
+            mn_, _mx, _sub = rest[0][1]
+            if mn_ != 0:
+                whyc = 'the blanks between the backslash and the line break are required (/%s/): a backslash directly before the line break no longer joins lines' % pat_
+                continue
+            rest = rest[1:]
+        nl_ok = any(str(op_) == 'LITERAL' and av_ == 10 for op_, av_ in rest) or any(str(op_) == 'LITERAL' and av_ == 10 for op_, av_ in seq)
+        if nl_ok:
+            okc = True
+    res.ob(site, 'a backslash, optional blanks and the line break are ignored text (explicit line joining)', okc)
+    if not okc:
+        res.finding('lark/grammars/python.lark', None, 'explicit line joining: %s -- the line break stays a newline token and the Indenter measures the continuation line'
+                    % whyc, construct='line-continuation', file=rel, line=conts[0][2] if conts else 1)
     declared = set()
     for m in _re.finditer(r'^%declare\s+(.*)$', text, _re.M):
         declared |= set(m.group(1).split('//')[0].split())
